@@ -10,7 +10,7 @@
    is get_testlike_targets, the inputs generate_ending gives meson-test-prereq. *)
 From MV Require Import Base.Strs Graph.Manifest Graph.Check Graph.Spec Graph.Proofs
                        Graph.Mech Graph.MechProofs Graph.Ending Graph.EndingProofs
-                       Graph.NoCycle Graph.Quote Graph.QuoteProofs Graph.Unity Graph.UnityProofs.
+                       Graph.NoCycle Graph.Quote Graph.QuoteProofs Graph.Unity Graph.UnityProofs Graph.Glue Graph.GlueProofs.
 From Coq Require Import Relations.
 
 (* "build.ninja is a valid Ninja manifest in which every build statement uses a defined
@@ -235,3 +235,66 @@ Theorem C04_unity_extracted_objects_partial : forall srcs size,
   extracted_objects srcs size = compiled_objects srcs size.
 Proof. exact extracted_are_compiled_partial. Qed.
 Print Assumptions C04_unity_extracted_objects_partial.
+
+(* ---- references emitted by the statement generator name what is produced (Graph/Glue.v) ---- *)
+
+(* a dependency of an alias / run target on a run target names the statement of that run
+   target (build_run_target_name, with the subproject prefix) after
+   pending/C04-run-target-dep-in-subproject.diff ... *)
+Theorem C04_run_target_dep_named : forall d, run_dep_ref true d = run_target_name d.
+Proof. intro d. exact (run_dep_named true d eq_refl). Qed.
+Print Assumptions C04_run_target_dep_named.
+
+(* ... the code as it stands names "<name>" for a run target of a subproject, whose
+   statement is "<subproject>@@<name>"; it is right in the main project *)
+Theorem C04_run_target_dep_named_refuted : exists d, run_dep_ref false d <> run_target_name d.
+Proof. exact run_dep_named_refuted. Qed.
+Print Assumptions C04_run_target_dep_named_refuted.
+
+Theorem C04_run_target_dep_named_partial : forall d, rt_sub d = [] -> run_dep_ref false d = run_target_name d.
+Proof. exact run_dep_named_partial. Qed.
+Print Assumptions C04_run_target_dep_named_partial.
+
+(* compiler.preprocess(): after pending/C04-preprocess-flat-layout.diff a user of a
+   preprocessed source reads exactly the path the preprocessor statement produces, for
+   every layout and every (normalised) subdir, and the headers of depends: are referred
+   to where they are produced ... *)
+Theorem C04_preprocess_output_read_where_produced : forall flat subdir name o,
+  forallb plain_comp subdir = true -> plain_comp (name ++ s2l ".p") = true -> plain_comp o = true ->
+  pp_consumed true flat subdir name o = pp_produced flat subdir name o.
+Proof. exact pp_consumed_is_produced. Qed.
+Print Assumptions C04_preprocess_output_read_where_produced.
+
+Theorem C04_preprocess_depends_header_where_produced : forall flat depsubdir o,
+  hdr_ref true flat depsubdir o = hdr_produced flat depsubdir o.
+Proof. exact hdr_ref_is_produced. Qed.
+Print Assumptions C04_preprocess_depends_header_where_produced.
+
+(* ... the code as it stands doubles the directory (root, --layout=flat) and looks for the
+   header in the source subdir; it is right with the default layout *)
+Theorem C04_preprocess_output_read_where_produced_refuted :
+  exists flat subdir name o, forallb plain_comp subdir = true /\
+    pp_consumed false flat subdir name o <> pp_produced flat subdir name o.
+Proof. exact pp_consumed_is_produced_refuted. Qed.
+Print Assumptions C04_preprocess_output_read_where_produced_refuted.
+
+Theorem C04_preprocess_output_read_where_produced_partial : forall subdir name o,
+  forallb plain_comp subdir = true -> plain_comp (name ++ s2l ".p") = true -> plain_comp o = true ->
+  pp_consumed false false subdir name o = pp_produced false subdir name o.
+Proof. exact pp_consumed_is_produced_partial. Qed.
+Print Assumptions C04_preprocess_output_read_where_produced_partial.
+
+Theorem C04_preprocess_depends_header_refuted :
+  exists flat depsubdir o, hdr_ref false flat depsubdir o <> hdr_produced flat depsubdir o.
+Proof. exact hdr_ref_is_produced_refuted. Qed.
+Print Assumptions C04_preprocess_depends_header_refuted.
+
+(* dyndeps: every depscan.json a depaccumulate statement reads (its own, those of linked
+   targets that use dyndeps, those of Fortran targets whose objects it takes) is produced
+   by a depscan statement *)
+Theorem C04_depaccumulate_inputs_produced : forall ts self linked extracted,
+  dyndep_consistent ts = true -> d_dyndeps self = true ->
+  In self ts -> incl linked ts -> incl extracted ts ->
+  forall q, In q (depaccumulate_inputs self linked extracted) -> In q (produced_jsons ts).
+Proof. exact depaccumulate_inputs_produced. Qed.
+Print Assumptions C04_depaccumulate_inputs_produced.
